@@ -14,13 +14,16 @@ Module BC := GoCoap.Blockwise.Config.
 (* ================================================================== *)
 (* 1. response cache (Dedup): gone after the exchange lifetime          *)
 
-Definition d_quiet (e : D.ev) : Prop := match e with D.Req _ _ _ _ _ _ => False | D.Age ms => 0 <= ms | D.Tick => True end.
+Definition d_quiet (e : D.ev) : Prop :=
+  match e with D.Req _ _ _ _ _ _ => False | D.Age ms => 0 <= ms | D.Tick => True
+             | D.Drop _ _ | D.Ping _ | D.Send _ _ _ _ _ => True (* never touch the response cache *) end.
 
 Definition left_le (B : Z) (c : list (Z * D.entry)) : Prop := Forall (fun '(_, en) => D.e_left en <= B) c.
 
 Lemma d_quiet_step s e B : d_quiet e -> left_le B (D.cache s) -> left_le (B - DP.age_of e) (D.cache (fst (D.step s e))).
 Proof.
-  intros Hq Hb. destruct e as [typ mid tok code ro b | ms | ]; cbn [d_quiet DP.age_of] in *; [contradiction| |].
+  intros Hq Hb. destruct e as [typ mid tok code ro b | ms | | typ mid | mid | typ tok code o p]; cbn [d_quiet DP.age_of] in *;
+    [contradiction| | |replace (B - 0) with B by lia; exact Hb..].
   - cbn [D.step fst D.cache]. unfold left_le in *.
     induction Hb as [|[k0 e0] c H _ IH]; cbn [map]; constructor; [cbn [D.e_left]; lia|exact IH].
   - cbn [D.step fst D.cache]. unfold left_le in *. replace (B - 0) with B by lia.
@@ -66,7 +69,7 @@ Lemma cache_expires_from s d : DP.all_bounded (D.cache s) -> D.LIFETIME < d ->
   D.cache (fst (D.step (fst (D.step s (D.Age d))) D.Tick)) = [].
 Proof.
   intros Hab Hd.
-  pose proof (d_quiet_step s (D.Age d) D.LIFETIME ltac:(cbn; unfold D.LIFETIME in *; lia) Hab) as Hb. cbn [DP.age_of] in Hb.
+  pose proof (d_quiet_step s (D.Age d) D.LIFETIME ltac:(cbn; pose proof DP.lifetime_nonneg; lia) Hab) as Hb. cbn [DP.age_of] in Hb.
   cbn [D.step fst D.cache] in *. apply tick_clears. eapply left_le_weaken; [|exact Hb]. lia.
 Qed.
 
@@ -831,7 +834,7 @@ Theorem all_empty : forall s d, 0 <= R.ack_ms c -> 0 <= R.max_rt c ->
   sizes (closing d s) = [0; 0; 0; 0; 0; 0; 0; 0; 0; 0; blen (live s)] /\ live (closing d s) = live s.
 Proof.
   intros s d Hack Hmr I (Hret & Htok & Hlim & Hnw) Hd1 Hd2.
-  assert (Hd0 : 0 <= d) by (unfold D.LIFETIME in Hd1; lia).
+  assert (Hd0 : 0 <= d) by (pose proof DP.lifetime_nonneg; lia).
   set (s1 := Model.step c s (AgeAll d)).
   assert (Hp0 : R.pending (rx s) = []).
   { destruct (R.pending (rx s)) as [|p r] eqn:E; [reflexivity|].
